@@ -55,6 +55,10 @@ def families(tier: str) -> list[dict]:
                      I=1 + i % 2, **dt)
             if model in ('conv', 'conv2') and dt.get('param_dtype') == 'bfloat16':
                 c.update(param_dtype='float32', factor_dtype=None)
+            if i % 4 == 3:
+                # AMP: a loss scale is in use (constant or dynamic); the
+                # gradients handed to step() are unscaled
+                c.update(grad_scaler=[256.0, 'dyn8'][(i // 4) % 2])
             fams.append(reffam.fam(
                 c, ['Train', 'Step'] if quick else ['Train', 'Step', 'Eval'], d))
             i += 1
